@@ -88,6 +88,10 @@ def run(ctx):
 
     split = [f for f in prog.find(NS + "split") if f.has_cfg]
     repl = [f for f in prog.find(NS + "replace_all") if f.has_cfg]
+    from .common import delegating_overload
+    for f in [f for f in repl if delegating_overload(prog, f) is not None]:
+        ctx.ok("R17.1", f, "delegates", "hands its parameters to %s and returns: the laws are those of that overload" % delegating_overload(prog, f).id[:90], f)
+    repl = [f for f in repl if delegating_overload(prog, f) is None]
     ctx.need("R17.1", "split", len(split), 1)
     ctx.need("R17.1", "replace_all", len(repl), 1)
     nloops = 0
@@ -344,8 +348,17 @@ def run(ctx):
         wrong = {"(%s.find(%s, 0) != std::basic_string<char>::npos)" % (a, b), "(%s.find(%s, 0) >= 0)" % (a, b), "(%s.rfind(%s, std::basic_string<char>::npos) == 0)" % (a, b)}
         # `full.size() >= beginning.size() && <core>`: the guard only states what the core implies
         mg = re.fullmatch(r"\(\((%s\.(?:size|length)\(\) >= %s\.(?:size|length)\(\)|%s\.(?:size|length)\(\) <= %s\.(?:size|length)\(\))\) && (.+)\)" % (re.escape(a), re.escape(b), re.escape(b), re.escape(a)), r[0]) if len(r) == 1 else None
+        # element-wise comparison from both starts over the prefix's length: `equal(b.begin(), b.end(), a.begin())` reads b.size() elements
+        # of a - a position-0 idiom only where a.size() >= b.size() is established first (the guard is then not an optimisation but the
+        # bound of the read)
+        eq3 = re.compile(r"(std::)?equal\(%s\.c?begin\(\), %s\.c?end\(\), %s\.c?begin\(\)\)" % (re.escape(b), re.escape(b), re.escape(a)))
         if mg and mg.group(2) in good:
             ctx.ok("R17.4", f, "prefix-idiom", r[0], f)
+        elif mg and eq3.fullmatch(mg.group(2)):
+            ctx.ok("R17.4", f, "prefix-idiom", r[0], f)
+        elif len(r) == 1 and eq3.fullmatch(r[0]):
+            ctx.bad("R17.4", f, "prefix-idiom", "starts_with is %s: the comparison walks %s.size() elements of %s without establishing %s.size() >= %s.size() first - for a prefix longer than the "
+                    "string it reads past the end (the terminator compares equal to an embedded NUL, what lies behind it is whatever the buffer holds): starts_with(\"ab\", std::string(\"ab\\0\", 3)) holds" % (r[0], b, a, a, b), f)
         elif len(r) == 1 and r[0] in good:
             ctx.ok("R17.4", f, "prefix-idiom", r[0], f)
         elif len(r) == 1 and r[0] in wrong:
@@ -357,10 +370,15 @@ def run(ctx):
         else:
             # early answers in front of one core idiom: each constant return must be right for every input it covers
             rets = [(bid, e, ir.unwrap(e["expr"].get("e"))) for bid, _, e in f.roots() if e["expr"].get("k") == "return"]
-            core = [x for x in rets if fmt(x[2]) in good]
+            core = [x for x in rets if fmt(x[2]) in good or eq3.fullmatch(fmt(x[2]))]
             consts = [x for x in rets if fmt(x[2]) in ("true", "false")]
             if len(core) == 1 and len(core) + len(consts) == len(rets) and not cfg.loop_blocks(f):
-                ctx.ok("R17.4", f, "prefix-idiom", fmt(core[0][2]), f)
+                if eq3.fullmatch(fmt(core[0][2])):
+                    # the bounded read needs its bound: some `return false` (checked below to hang on `prefix longer than string`) in front of it
+                    ctx.check(any(fmt(v) == "false" for _, _, v in consts), "R17.4", f, "prefix-idiom",
+                              "starts_with is %s with no refusal of a longer prefix in front of it: the comparison reads %s.size() elements of %s" % (fmt(core[0][2]), b, a), f, why_ok=fmt(core[0][2]))
+                else:
+                    ctx.ok("R17.4", f, "prefix-idiom", fmt(core[0][2]), f)
                 sz = lambda v: r"%s\.(size|length)\(\)" % re.escape(v)
                 for bid, e, val in consts:
                     # the branch edge this return hangs on
